@@ -46,3 +46,5 @@ mod c30;
 mod c16;
 #[cfg(kani)]
 mod c26;
+#[cfg(kani)]
+mod c12;
